@@ -335,9 +335,17 @@ CLAIMS = {
             "segment (C19_local_lipschitz_ieee_bound); fl(fl(l_j/dist) dist) is within 2.001 x 2^-53 l_j + 2^-1075 (2 dist + 1) "
             "of l_j (C19_vertex_fraction_distance_ieee) and for an interior vertex whose length is separated from both "
             "neighbours the position at progress l_j/dist is vertex j up to an explicit bound "
-            "(C19_vertex_fraction_position_partial). NOT proved: vertex hits when several cumulative lengths lie within that "
-            "distance of each other and the GLOBAL Lipschitz bound across segments in IEEE arithmetic (both need chord <= arc "
-            "for the IEEE lengths) - measured by the oracle within rounding slack. Tie "
+            "(C19_vertex_fraction_position_partial). ACROSS SEGMENTS, for the natural lengths of the path (zero seed, |c| <= 2^20, "
+            "segments degenerate or >= 2^-10 long, <= 2^50 vertices): chord <= arc for the IEEE lengths, |p_k+1 - p_k| <= "
+            "(1 + 3.02 x 2^-24)(l_k+1 - l_k) + 1.002 x 2^-53 l_k+1 (C19_chord_le_length_increment_ieee; a purely relative bound is "
+            "false), hence the GLOBAL Lipschitz bound in IEEE arithmetic, through the transcribed search: |pos a - pos b| <= "
+            "(1 + delta)|b - a| + n eta dist + 2 E19max per coordinate, for distances and for progress values "
+            "(C19_global_lipschitz_ieee, _search_ieee, _position_at, _progress), the search lands on the right segment "
+            "(C19_search_locates_ieee), and position_at(l_j / dist) is vertex j up to an explicit bound for EVERY j, clusters of "
+            "nearly equal lengths, zero-length segments and the last vertex included (C19_vertex_fraction_position_full_ieee). "
+            "NOT proved: the across-segment IEEE bounds for a curve cut or extended to a requested length or seeded with the "
+            "osu! Catmull surplus, inputs outside the magnitude hypotheses, dist = 0 - measured by the oracle within rounding "
+            "slack. Tie "
             "to the code: bit-exact position_at / progress_to_dist / idx_of_dist / interpolate_vertices.",
             "§6 C19"),
     "C20": ("Unbounded theorems (coq/Properties/C20.v): the lazy iterator state machine with its reversed tick stack equals "
